@@ -83,6 +83,20 @@ def run(ck):
                         'rows_with_gaps': [row[:200] for row in r['rows'] if '-' in row][:3]})
         elif len(s) >= 2:
             ck.nontriv((s[:80], len(s), n, t).__repr__())
+    # ---- the degenerate input of the bisecting k-means: >= 100 identical copies, many lengths (tree building only) -----
+    kl, kmeta = [], []
+    for k in range(42 if quick else 400):
+        n = rng.choice([100, 128, 150, 199, 199, 250])
+        L = rng.choice([rng.range(1, 300), rng.range(300, 2000), rng.range(2000, 5000), rng.range(2000, 5000)])
+        s = gen.rand_seq(rng, 'ACGT', L)
+        kl.append('ktree %d %s' % (n, gen.hexs(s))); kmeta.append((n, L, s))
+    kres = ck.run_lines_sharded(kvh, kl, shards=14, timeout=240, env=dict(__import__('os').environ, OMP_NUM_THREADS='2'))
+    ck.evaluations += len(kl)
+    for (n, L, sq), r in zip(kmeta, kres):
+        ck.count('k-means tree of identical copies: %s' % ('ok' if r.startswith('OK') and r.endswith('valid=1') else 'BAD'))
+        if not (r.startswith('OK') and r.endswith('valid=1') and r.split()[1] == str(n - 1)):
+            wit.append({'kind': 'guide-tree-construction-fails-on-identical-copies', 'copies': n, 'length': L, 'string': sq, 'implementation': r[:200],
+                        'note': 'build_tree_kmeans on n identical sequences (random ACGT string of that length) crashed, hung or gave an invalid task list'})
     if jobs:
         ck.sample({'string': jobs[0][2][:80], 'copies': jobs[0][3], 'implementation_rows': nc.parse_impl(first[0])['rows'][:2]})
     seen = {}
